@@ -49,11 +49,16 @@ static void vf_interfere(void)
 }
 static void vf_pause(void) {}
 
+uint32_t g_last_load; /* value returned by the last load of the shared cell */
 static uint32_t vf_load_self_test_status(void)
 {
         vf_interfere();
+        g_last_load = g_status;
         return g_status;
 }
+/* progress (a safety property that gives "nobody waits forever" under fairness): a waiter goes round
+ * the wait loop again only if the value it just read was RUNNING - it never spins on a final verdict */
+#define VF_SPIN_CHECK(cont) __CPROVER_assert(!(cont) || g_last_load == 3u, "wait loop continues only while RUNNING was observed")
 static _Bool vf_cmpxchg_self_test_status(uint32_t *expected, uint32_t desired)
 {
         vf_interfere();
@@ -80,5 +85,5 @@ static void vf_store_self_test_status(uint32_t v)
 /* spin loop of asm_check_self_tests_status: entered only after losing the CAS.  No decreases
  * clause: that the loop ends needs fairness and the winner finishing (liveness, not decided). */
 #define VF_LOOP_check_status_loop                                                                  \
-        __CPROVER_assigns(zf, g_status, g_other)                                                   \
+        __CPROVER_assigns(zf, g_status, g_other, g_last_load)                                                 \
         __CPROVER_loop_invariant(VF_I && !g_mine && g_status != 2u)
